@@ -304,12 +304,18 @@ def substitute(exprs, repl):  # noqa: C901
         assert isinstance(expr, Node)
 
         didrepl = False
+        # Was expr replaced based on a Node -> Node entry? Such a replacement
+        # is inserted as is. Substituting within it again is wrong (the
+        # substitution is simultaneous) and does not terminate if the
+        # replacement contains its own key, e.g., for {a: (+ a 1)}.
+        didglobalrepl = False
         if expr.id and expr.id in repl:
             expr = repl.pop(expr.id)
             didrepl = True
         if expr in repl:
             expr = repl[expr]
             didrepl = True
+            didglobalrepl = True
         if didrepl:
             changed = True
             if expr is None:
@@ -323,7 +329,7 @@ def substitute(exprs, repl):  # noqa: C901
             else:
                 args[-1].append(node)
         else:
-            if not repl or expr.is_leaf():
+            if not repl or expr.is_leaf() or didglobalrepl:
                 args[-1].append(expr)
             else:
                 visit.append((expr, True))
